@@ -88,12 +88,24 @@ def gen_exprs(tier, rng):
     return out
 
 
+# values a temp entry may hold: the predicate decides for every value that is not None
+REQ_VALUES = {"list1": lambda: [1], "empty_list": lambda: [], "empty_dict": lambda: {}, "zero": lambda: 0, "zero_float": lambda: 0.0,
+              "false": lambda: False, "empty_str": lambda: "", "empty_series": lambda: pd.Series([], dtype=float).tolist()}
+
+
 def run_require(case):
-    present, isnone, pv, ifnone = case
+    present, isnone, pv, ifnone = case[:4]
+    val = case[4] if len(case) > 4 else "list1"
     s = bt.Strategy("s")
+    seen = []
     if present:
-        s.temp["it"] = None if isnone else [1]
-    r = algos.Require(lambda x: pv, "it", if_none=ifnone)(s)
+        s.temp["it"] = None if isnone else REQ_VALUES[val]()
+
+    def pred(x):
+        seen.append(x)
+        return pv
+
+    r = algos.Require(pred, "it", if_none=ifnone)(s)
     return {"what": "expr", "expr": {"t": "require", "present": present, "isnone": isnone, "pv": pv, "ifnone": ifnone}, "calls": [], "ret": bool(r)}
 
 
@@ -207,7 +219,7 @@ def run(prop, tier, replay=None):
         rep.machinery_errors.append("MC_BtStack did not pass: " + out[-600:])
     rep.cov["exhaustive"] = complete
     jobs = [("expr", e) for e in gen_exprs(tier, rng)]
-    jobs += [("req", c) for c in itertools.product([True, False], repeat=4)]
+    jobs += [("req", c + (v,)) for c in itertools.product([True, False], repeat=4) for v in REQ_VALUES]
     jobs += [("oob", c) for c in gen_oob(tier, rng)]
     jobs += [("tree", (t, 3)) for t in TREES]
     if replay:
